@@ -467,6 +467,10 @@ impl<'a> Gen<'a> {
             4 | 5 => Val::Str(t.clone()),
             _ => Val::Strs(vec![t.clone()]),
         };
+        // a backslash inside ONE value of a multi-valued element is outside the property's hypotheses (it is a delimiter on the wire)
+        if let Val::Strs(v) = &val { if v.iter().any(|t| t.contains('\\')) { self.applicable = false; } }
+        // the value itself is text of a default-repertoire VR: a candidate term with a character outside it must be refused
+        if !val.texts().iter().all(|t| t.chars().all(|c| self.sets[0].in_rep(c))) { self.valid = false; }
         // the set in force afterwards, by the property's reading: the first value of the element names it
         let first: Option<String> = match &val { Val::Empty => None, Val::Str(s) => s.split('\\').next().map(|x| x.to_string()), Val::Strs(v) => v.first().cloned() };
         if let Some(cs) = first.and_then(|f| SpecificCharacterSet::from_code(&f)) { self.cur = self.sets.iter().position(|s| s.cs == cs).unwrap(); }
@@ -542,7 +546,13 @@ fn ds_class(sets: &[SetInfo], flat: &[(Tag, VR, Val)], cs0: usize) -> &'static s
                 }
             }
         }
-        if si.name == "ISO_IR 87" && !single_vr(*vr) { if let Ok(b) = si.cs.encode(&val.flat()) { if b.len() % 2 == 1 && class == "DatasetRoundTrip" { class = "Iso2022JpPadInKanjiState"; } } }
+        if si.name == "ISO_IR 87" {
+            // the value as it goes on the wire: each text encoded on its own, joined by 0x5C; odd length and the last text left in a two-byte state
+            let encs: Vec<Vec<u8>> = val.texts().iter().filter_map(|t| si.cs.encode(t).ok()).collect();
+            let total: usize = encs.iter().map(|b| b.len()).sum::<usize>() + encs.len().saturating_sub(1);
+            let two_byte_at_end = encs.last().map_or(false, |b| { let p2 = b.windows(2).rposition(|w| w == [0x1b, b'$']); let p1 = b.windows(2).rposition(|w| w == [0x1b, b'(']); p2.is_some() && p2 > p1 });
+            if total % 2 == 1 && two_byte_at_end && class == "DatasetRoundTrip" { class = "Iso2022JpPadInKanjiState"; }
+        }
         if *tag == SCS {
             let first = match val { Val::Empty => None, Val::Str(s) => s.split('\\').next().map(|x| x.to_string()), Val::Strs(v) => v.first().cloned() };
             if let Some(cs) = first.and_then(|f| SpecificCharacterSet::from_code(&f)) { cur = sets.iter().position(|s| s.cs == cs).unwrap(); }
@@ -692,6 +702,33 @@ pub fn cases(ctx: &Ctx) -> Vec<Case> {
     out.push(ds_write_case(&sets, 0, &[scs_node("ISO_IR 100"), text_node(pn, VR::PN, Val::Str("\u{418}".into()))], true, false, "corpus-dataset"));
     // text before the element uses the initial set
     out.push(ds_write_case(&sets, by("ISO_IR 126"), &[text_node(Tag(0x0008, 0x0001), VR::LO, Val::Str("\u{394}".into())), scs_node("ISO_IR 144"), text_node(pn, VR::PN, Val::Str("\u{418}".into()))], true, true, "corpus-dataset"));
+
+    // ---- complete single-character sweeps of the multi-byte sets (no model side): every scalar value of the
+    // BMP (quick) or of all planes (thorough) either is refused or decodes back to itself
+    {
+        let hi: u32 = if ctx.tier == Tier::Thorough { 0x11_0000 } else { 0x1_0000 };
+        let step: u32 = 0x4000;
+        for si in sets.iter().filter(|s| s.multi) {
+            let mut lo = 0u32;
+            while lo < hi {
+                let mut bad: Vec<(u32, String)> = vec![]; let mut accepted = 0u32;
+                let mut buf = [0u8; 4];
+                for u in lo..lo + step {
+                    let Some(c) = char::from_u32(u) else { continue };
+                    let s: &str = c.encode_utf8(&mut buf);
+                    if codec_class(si, s) != "CodecRoundTrip" { continue; } // known-finding characters are witnessed by the corpus
+                    if let Ok(b) = si.cs.encode(s) {
+                        accepted += 1;
+                        match catch(|| si.cs.decode(&b)) { Some(Ok(d)) if d == s => {}, other => bad.push((u, format!("{} -> {:?}", hex(&b), other.map(|r| r.ok())))) }
+                    }
+                }
+                let oracle = if bad.is_empty() { Oracle::Holds } else { Oracle::Fails { class: "CodecRoundTrip".into(), detail: format!("{}: U+{:04X} -> {} ({} characters in this block)", si.name, bad[0].0, bad[0].1, bad.len()) } };
+                out.push(Case { coq: String::new(), desc: json!({"bucket": "sweep-multibyte", "set": si.name, "from": lo, "to": lo + step, "accepted": accepted}),
+                                key: if accepted > 0 { format!("S{}|{}", si.idx, lo) } else { String::new() }, oracle });
+                lo += step;
+            }
+        }
+    }
 
     // ---- generated
     while out.len() < ctx.n {
